@@ -7,25 +7,37 @@ From Soy Require Import Model.Bytes Generated.Tables Proofs.SourceTieBase.
 Import ListNotations.
 Open Scope N_scope.
 
+(* Every lemma here is proved in two parts that do not look at the shape of the translated function (a switch, a
+   chain of ||, an inverted switch with a default, a lookup in a set `map[itemType]bool`, a lookup in a table or a
+   function of the item type): below 256 both sides are EVALUATED on every code, from 256 on every comparison with
+   an item code is decided by lia.  (Item codes are the constants of one const block: far below 256.) *)
+Ltac st_code_pred :=
+  intros t; pattern t; apply (st_split_below _ 256); clear t;
+  [ apply st_below_bool; vm_compute; reflexivity
+  | intros t Ht;
+    cbv [is_binary_op is_unary_op is_value is_binary_op_codes is_unary_op_codes is_value_codes mem existsb];
+    st_unfold_tables; st_decide_lookups; cbv zeta; st_decide_ifs; first [reflexivity | bool_lia] ].
+
 (* ---- isBinaryOp / isUnaryOp / isValue ---- *)
-Lemma is_binary_op_matches_source (t : N) : is_binary_op t = src_parse_isBinaryOp (Z.of_N t).
-Proof. unfold is_binary_op, src_parse_isBinaryOp. cbv [is_binary_op_codes mem existsb]. bool_lia. Qed.
+Lemma is_binary_op_matches_source : forall t : N, is_binary_op t = src_parse_isBinaryOp (Z.of_N t).
+Proof. unfold src_parse_isBinaryOp. st_code_pred. Qed.
 
-Lemma is_unary_op_matches_source (t : N) : is_unary_op t = src_parse_isUnaryOp (Z.of_N t).
-Proof. unfold is_unary_op, src_parse_isUnaryOp. cbv [is_unary_op_codes mem existsb]. bool_lia. Qed.
+Lemma is_unary_op_matches_source : forall t : N, is_unary_op t = src_parse_isUnaryOp (Z.of_N t).
+Proof. unfold src_parse_isUnaryOp. st_code_pred. Qed.
 
-Lemma is_value_matches_source (t : N) : is_value t = src_parse_isValue (Z.of_N t).
-Proof. unfold is_value, src_parse_isValue. cbv [is_value_codes mem existsb]. bool_lia. Qed.
+Lemma is_value_matches_source : forall t : N, is_value t = src_parse_isValue (Z.of_N t).
+Proof. unfold src_parse_isValue. st_code_pred. Qed.
 
-(* ---- precedence[tok.typ] (a missing key reads as 0) ---- *)
-Lemma prec_table_matches_source (t : N) :
-  option_map Z.of_N (assoc t parser_prec_table) = go_assoc_z (Z.of_N t) src_parse_precedence.
+(* ---- precedence[tok.typ] / precedenceOf(tok.typ): a map literal (a missing key reads as 0) or a function of the item
+   type in its role; gotrans emits src_parse_precedence_at for either ---- *)
+Lemma prec_of_matches_source : forall t : N, Z.of_N (prec_of t) = src_parse_precedence_at (Z.of_N t).
 Proof.
-  apply (assoc_z_ext Z.of_N Z.eqb); [exact Z_eqb_true|vm_compute; reflexivity|vm_compute; reflexivity].
-Qed.
-
-Lemma prec_of_matches_source (t : N) : Z.of_N (prec_of t) = go_lookup_z (Z.of_N t) src_parse_precedence 0%Z.
-Proof.
-  unfold prec_of, go_lookup_z. rewrite <- prec_table_matches_source.
-  destruct (assoc t parser_prec_table); reflexivity.
+  intros t; pattern t; apply (st_split_below _ 256); clear t.
+  - apply st_below_Z. vm_compute. reflexivity.
+  - intros t Ht. unfold prec_of. rewrite assoc_none.
+    + unfold src_parse_precedence_at.
+      (* the function's own name is not mentioned: it exists in one of the two shapes only *)
+      try match goal with |- _ = ?f _ => is_const f; unfold f end.
+      st_unfold_tables. st_decide_lookups. cbv zeta. st_decide_ifs. reflexivity.
+    + cbv [parser_prec_table map fst existsb]. lia.
 Qed.
